@@ -267,6 +267,7 @@ func init() {
 				bk := DefaultBankKnobs()
 				bk.PInfo, bk.PRepeat = 90, 35
 				bk.PInfoShare = 35
+				bk.PLocPC = 15 // IDs follow the function, not the LocationForPC override
 				bk.WDecorate = 4
 				return GenBankCase(t, bk)
 			}
